@@ -47,6 +47,7 @@ type target struct {
 	Ctors       map[string]string `json:"ctors"`        // qualified function → "pair": a constructor call becomes the tuple of its arguments
 	Fuel        map[string]string `json:"fuel"`         // loop name → Lean Nat expression
 	Funcs       map[string]string `json:"funcs"`        // called function (as written) → name of a Lean parameter of type `List Str → M Str` standing for it (its arguments are handed over as one list)
+	IterBody    bool              `json:"iter_body"`    // the function returns an iterator: translate the body of the innermost function literal with a `yield` parameter; `if !yield(x) { return }` appends x to the fragments, which are the result (a consumer that never stops early)
 	OutParams   []string          `json:"out_params"`   // parameters the function writes to (an io.Writer): threaded through as text, returned as the result
 	Props       []string          `json:"props"`
 }
@@ -74,6 +75,8 @@ type fn struct {
 	resTy  string             // Lean type of the function's result
 	named  []string           // named results (Lean names)
 	leanFn string
+	outVar *types.Var // iter_body: the fragments emitted so far
+	yield  *types.Var
 }
 
 var leanKeywords = map[string]bool{"prefix": true, "end": true, "from": true, "at": true, "fun": true, "do": true, "then": true, "else": true, "if": true,
@@ -509,6 +512,9 @@ func (f *fn) call(x *ast.CallExpr, pre *[]string) string {
 	case "strings.Join":
 		a := f.args(x, pre)
 		return "(Go.strJoin " + a[0] + " " + a[1] + ")"
+	case "strings.Split":
+		a := f.args(x, pre)
+		return "(Go.strSplit " + a[0] + " " + a[1] + ")"
 	case "strings.Trim":
 		a := f.args(x, pre)
 		return "(Go.strTrim " + a[0] + " " + a[1] + ")"
@@ -764,6 +770,9 @@ func (f *fn) assigned(outer token.Pos, nodes ...ast.Node) []*types.Var {
 			case *ast.IncDecStmt:
 				add(f.rootVar(y.X))
 			case *ast.CallExpr:
+				if id, ok := y.Fun.(*ast.Ident); ok && f.yield != nil && f.info.Uses[id] == f.yield {
+					add(f.outVar)
+				}
 				if sel, ok := y.Fun.(*ast.SelectorExpr); ok && builderWrites[sel.Sel.Name] && isBuilder(f.info.TypeOf(sel.X)) {
 					add(f.rootVar(sel.X))
 				}
@@ -792,7 +801,7 @@ func (f *fn) freeVars(outer token.Pos, n ast.Node) []*types.Var {
 	ast.Inspect(n, func(m ast.Node) bool {
 		if id, ok := m.(*ast.Ident); ok {
 			if v, ok := f.info.Uses[id].(*types.Var); ok && !v.IsField() && v.Pkg() != nil && v.Parent() != v.Pkg().Scope() && v.Pos() < outer && !seen[v] {
-				if f.dropped(v) {
+				if f.dropped(v) || v == f.yield {
 					return true
 				}
 				seen[v] = true
@@ -1026,6 +1035,11 @@ func (f *fn) stmts(list []ast.Stmt, k konts) []string {
 		case *ast.SwitchStmt:
 			return append(out, f.stmts(append([]ast.Stmt{f.switchToIf(x)}, rest...), k)...)
 		case *ast.IfStmt:
+			if frag, ok := f.yieldStmt(x, &out); ok {
+				n := f.nameOf(f.outVar)
+				out = append(out, "let "+n+" : (List Str) := ("+n+" ++ ["+frag+"])")
+				break
+			}
 			var cond string
 			if pi := f.parseIntTest(x, &out); pi != "" {
 				cond = pi
@@ -1107,6 +1121,28 @@ func (f *fn) stmts(list []ast.Stmt, k konts) []string {
 		}
 	}
 	return append(out, k.fall)
+}
+
+// yieldStmt: `if !yield(x) { return }` — hand the consumer one fragment, stop if it has had enough
+func (f *fn) yieldStmt(x *ast.IfStmt, out *[]string) (string, bool) {
+	if f.yield == nil || x.Init != nil || x.Else != nil || len(x.Body.List) != 1 {
+		return "", false
+	}
+	if r, ok := x.Body.List[0].(*ast.ReturnStmt); !ok || len(r.Results) != 0 {
+		return "", false
+	}
+	not, ok := x.Cond.(*ast.UnaryExpr)
+	if !ok || not.Op != token.NOT {
+		return "", false
+	}
+	call, ok := not.X.(*ast.CallExpr)
+	if !ok || len(call.Args) != 1 {
+		return "", false
+	}
+	if id, ok := call.Fun.(*ast.Ident); !ok || f.info.Uses[id] != f.yield {
+		return "", false
+	}
+	return f.expr(call.Args[0], out), true
 }
 
 // parseIntTest: `if _, err := strconv.ParseInt(X, 10, 64); err == nil` asks whether X is a decimal 64-bit integer
@@ -1551,7 +1587,9 @@ func (f *fn) forLoop(x *ast.ForStmt, rest []ast.Stmt, k konts) ([]string, bool) 
 
 func (f *fn) translate() string {
 	sig := f.info.Defs[f.decl.Name].(*types.Func).Type().(*types.Signature)
-	f.resTy = f.resultType(sig, &f.t)
+	if !f.t.IterBody {
+		f.resTy = f.resultType(sig, &f.t)
+	}
 	var binders []string
 	binders = append(binders, f.t.ExtraParams...)
 	for i := 0; i < sig.Params().Len(); i++ {
@@ -1562,7 +1600,7 @@ func (f *fn) translate() string {
 		binders = append(binders, f.binder(v))
 	}
 	var head []string
-	if !f.t.ErrorResult {
+	if !f.t.ErrorResult && !f.t.IterBody {
 		for i := 0; i < sig.Results().Len(); i++ {
 			v := sig.Results().At(i)
 			if v.Name() != "" && v.Name() != "_" {
@@ -1571,6 +1609,26 @@ func (f *fn) translate() string {
 				head = append(head, "let "+n+" : "+f.leanType(v.Type())+" := "+f.zero(v.Type()))
 			}
 		}
+	}
+	bodyList := f.decl.Body.List
+	if f.t.IterBody {
+		var lit *ast.FuncLit
+		ast.Inspect(f.decl.Body, func(n ast.Node) bool {
+			if fl, ok := n.(*ast.FuncLit); ok && fl.Type.Params != nil && len(fl.Type.Params.List) == 1 &&
+				len(fl.Type.Params.List[0].Names) == 1 && fl.Type.Params.List[0].Names[0].Name == "yield" {
+				lit = fl // the innermost one is visited last
+			}
+			return true
+		})
+		if lit == nil {
+			bad("iter_body: no function literal with a yield parameter")
+		}
+		f.yield = f.info.Defs[lit.Type.Params.List[0].Names[0]].(*types.Var)
+		f.outVar = types.NewVar(lit.Pos(), f.pkg.Types, "out__", types.NewSlice(types.Typ[types.String]))
+		f.named = []string{f.nameOf(f.outVar)}
+		head = append(head, "let "+f.nameOf(f.outVar)+" : (List Str) := ([] : (List Str))")
+		f.resTy = "(List Str)"
+		bodyList = lit.Body.List
 	}
 	k := konts{fall: "pure " + f.namedTuple(), ret: func(v string) string { return "pure " + v }}
 	if len(f.t.OutParams) > 0 {
@@ -1594,7 +1652,7 @@ func (f *fn) translate() string {
 		f.resTy = tty
 		k = konts{fall: "pure " + tup, ret: func(v string) string { return "pure " + tup }}
 	}
-	body := append(head, f.stmts(f.decl.Body.List, k)...)
+	body := append(head, f.stmts(bodyList, k)...)
 	def := []string{"def " + f.leanFn + " " + strings.Join(binders, " ") + " : M " + f.resTy + " := do"}
 	def = append(def, ind(body, 2)...)
 	pos := f.fset.Position(f.decl.Pos())
